@@ -94,6 +94,8 @@ pub fn run(ctx: &Ctx) -> i32 {
         crate::panics::VERBOSE.store(true, std::sync::atomic::Ordering::SeqCst);
         return runner::replay(&c, p);
     }
+    // (C11 comes here after its scheduler part, which had its own observer installed)
+    crate::relock::install();
     let n = if ctx.thorough() { thorough } else { quick };
     // replay tier: saved minimal histories of earlier findings and of earlier oracle mistakes
     let mut regress = runner::Stats::default();
